@@ -293,7 +293,10 @@ func mwEvents(t *testing.T, h *H) {
 				})
 				m := r.manager([]string{"polling"}, &sio.ManagerConfig{NoReconnection: true})
 				c := m.Socket("/", nil)
-				c.OnConnect(func() { sg.emit(c, func(r string) { mu.Lock(); acked = r; mu.Unlock() }) })
+				c.OnConnect(func() {
+					time.Sleep(5 * time.Millisecond) // the connection handler has registered the event handlers by then (D40)
+					sg.emit(c, func(r string) { mu.Lock(); acked = r; mu.Unlock() })
+				})
 				c.Connect()
 				time.Sleep(3 * time.Second)
 				r.shutdown(m)
